@@ -1255,6 +1255,7 @@ func (r *replicateChannelHandler) getTSManagerChannelKey(channelName string) str
 
 func (r *replicateChannelHandler) innerHandleReplicateMsg(forward bool, msg *api.ReplicateMsg) {
 	msgPack := msg.MsgPack
+	defer verifYield("done", msgPack)
 	p := r.handlePack(forward, msgPack, msg.TaskID)
 	if p == api.EmptyMsgPack {
 		return
@@ -1263,6 +1264,7 @@ func (r *replicateChannelHandler) innerHandleReplicateMsg(forward bool, msg *api
 	p.CollectionName = msg.CollectionName
 	p.PChannelName = msg.PChannelName
 	p.TaskID = msg.TaskID
+	verifYield("send", msgPack)
 	GetTSManager().SendTargetMsg(r.getTSManagerChannelKey(r.targetPChannel), p)
 }
 
@@ -1748,12 +1750,14 @@ func (r *replicateChannelHandler) handlePack(forward bool, pack *msgstream.MsgPa
 		position.ChannelName = pChannel
 	}
 
+	verifYield("max", pack)
 	maxTS, _ := GetTSManager().GetMaxTS(tsManagerChannelKey)
 	resetTS := resetMsgPackTimestamp(newPack, maxTS)
 	if resetTS {
 		GetTSManager().CollectTS(tsManagerChannelKey, newPack.EndTs)
 	}
 
+	verifYield("lock", pack)
 	GetTSManager().LockTargetChannel(tsManagerChannelKey)
 	defer GetTSManager().UnLockTargetChannel(tsManagerChannelKey)
 
